@@ -69,13 +69,18 @@ where
         match *cursor {
             Cursor::BeginAligned(cursor) => Ok(cursor),
             Cursor::EndAligned(cursor) => {
-                if cursor.abs() as usize > self.textlen() {
+                if cursor > 0 {
+                    Err(StamError::CursorOutOfBounds(
+                        Cursor::EndAligned(cursor),
+                        "TextResource::beginaligned_cursor(): end aligned cursor must be zero or negative",
+                    ))
+                } else if cursor.unsigned_abs() > self.textlen() {
                     Err(StamError::CursorOutOfBounds(
                         Cursor::EndAligned(cursor),
                         "TextResource::beginaligned_cursor(): end aligned cursor ends up before the beginning",
                     ))
                 } else {
-                    Ok(self.textlen() - cursor.abs() as usize)
+                    Ok(self.textlen() - cursor.unsigned_abs())
                 }
             }
         }
